@@ -84,7 +84,7 @@ class Oracle:
         return B.finish_heredocs(p.render(), p)
 
     def proper_text(self, s: B.Simple) -> str:
-        parts = [n + "=X" for n, _ in s.assigns]
+        parts = [n + "[0]=X" for n, _sub, _w in getattr(s, "elem_assigns", [])] + [n + "=X" for n, _ in s.assigns]
         for w in s.argv:
             parts.append(w.render() if w.is_plain() else "X")
         return " ".join(parts)
